@@ -2,6 +2,7 @@ SPECIFICATION TSpec
 CONSTANTS
   Coins = {"acoin", "bcoin"}
   ExtContracts = {"x1", "x2", "x3"}
+  BonusContracts = {"xb"}
   BadContracts = {"xd", "xm"}
   ReindexAll = TRUE
   CheckNewAddr = TRUE
